@@ -199,6 +199,11 @@ def gen(rng, tier):
             out.append(_interpdim_case(rng))
         else:
             out.append(_bpchsigma_case(rng) if i % 16 == 7 else _interpdim_case(rng))
+    # on every run: GEOS-Chem tracers saved on ten to nineteen levels (their dimension is named layer10 .. layer19)
+    for nz in (rng.randint(10, 13), rng.randint(14, 19)):
+        c = _bpchsigma_case(rng)
+        c.update(nz=nz, data=[rng.randint(-9, 9) for _ in range(nz)], full=False)
+        out.append(c)
     # on every run: IOAPI interpSigma with a requested edge 1/4096 away from an edge of the file, both kinds, same top
     found = 0
     for _ in range(3000):
